@@ -1,7 +1,7 @@
 SPECIFICATION MCSpec
 CONSTANTS FirstId = 100
           MaxNew = 2
-          MaxMsgs = 2
+          MaxMsgs = 3
           ExportLen = 0
           Wide = FALSE
 CONSTRAINT Bound
